@@ -46,6 +46,7 @@ pub fn def() -> CheckDef {
             "exclusion_applied",
             "injected_state",
             "history_state",
+            "empty_hunk_in_chain",
         ],
     }
 }
@@ -122,6 +123,11 @@ fn gen_injection(seed: u64) -> Scenario {
         };
         if kind == 9 {
             hunks.clear(); // hunk-less
+        }
+        if r.chance(1, 5) {
+            // an empty hunk is legal (old versions wrote them)
+            let at = r.usize(hunks.len() + 1);
+            hunks.insert(at, Some(Vec::new()));
         }
         let total = hunks.len();
         if !complete && total > 0 {
@@ -256,6 +262,9 @@ fn execute(sc: &Scenario, acc: &mut Acc) -> Result<Vec<Violation>, String> {
         }
         if bv.hunks.is_empty() {
             acc.hit("hunkless_band");
+        }
+        if view.bands.values().any(|b| b.hunks.values().any(|h| matches!(h, format::FileView::Ok(es) if es.is_empty()))) {
+            acc.hit("empty_hunk_in_chain");
         }
         // reach: where does the resume point fall in the donor's hunks?
         if !bv.is_closed() {
